@@ -177,9 +177,9 @@ def execute(ctx, seed, script, want, opcodes=None, horizon=40000):
 
 
 def _c(v):
-    if v is None or isinstance(v, (bytes, int, str, bool, tuple)):
+    if v is None or isinstance(v, (bytes, int, str, bool)):
         return v
-    return repr(v) if isinstance(v, (list, dict)) else type(v).__name__
+    return repr(v) if isinstance(v, (list, dict, tuple, set, frozenset)) else type(v).__name__
 
 
 def judge(seed, script, obs):
@@ -249,7 +249,8 @@ def jobs(tier, seed):
     if tier == "quick":
         pairs = [(two[0], two[1]), (two[0], two[0]), (two[2], two[2]), (two[1], two[2]),
                  (["version", "unknown"], ["unknown", "version"]), (["version", "unknown"], ["version", "unknown"]),
-                 (["unknown", "unknown"], ["ping", "inv"]), (["inv", "ping"], ["unknown", "version"])]
+                 (["unknown", "unknown"], ["ping", "inv"]), (["inv", "ping"], ["unknown", "version"]),
+                 (["version", "version"], ["version", "inv"]), (["ping", "ping"], ["verack", "addr"])]
     else:
         pairs = list(itertools.product(two, repeat=2)) + \
             list(itertools.product([["version", "unknown"], ["unknown", "version"], ["unknown", "unknown"], ["version", "version"]], repeat=2))
